@@ -5,7 +5,7 @@ TMP = tempfile.mkdtemp()
 HDR = '''From Coq Require Import String.
 From PS Require Import Base GFDefs PackDefs StoreDefs MiscDefs StrDefs LangDefs ApiDefs SpecDefs SpecApi.
 From PS Require Import GFProofs MiscProofs CoinProofs PackProofs PackTheorems StoreProofs SeedProofs ApiLemmas.
-From PS Require Import StrProofs CTieBase CTieLang CTiePhrase CTiePhraseEv CTieSplit CTieApi CTieDecode CTieEncode.
+From PS Require Import StrProofs CTieBase CTieLang CTiePhrase CTiePhraseEv CTieSplit CTieApi CTieDecode CTieEncode CTieLocals.
 From PS.Gen Require Import Consts PrivConsts Langs.
 From PS.Gen Require CFuns CApi.
 Local Open Scope N_scope.
@@ -23,7 +23,7 @@ def typ(name):
 IMPORTS = '''
 (* ---- the tie to the code: src/polyseed.c as TRANSLATED on this run (Gen/CApi.v) ---- *)
 From Coq Require Import String.
-From PS Require Import Base GFDefs PackDefs StoreDefs MiscDefs StrDefs LangDefs ApiDefs GFProofs PackProofs StoreProofs CTieBase CTieLang CTiePhrase CTiePhraseEv CTieSplit CTieApi CTieDecode CTieEncode.
+From PS Require Import Base GFDefs PackDefs StoreDefs MiscDefs StrDefs LangDefs ApiDefs GFProofs PackProofs StoreProofs CTieBase CTieLang CTiePhrase CTiePhraseEv CTieSplit CTieApi CTieDecode CTieEncode CTieLocals.
 From PS.Gen Require Import Consts PrivConsts Langs.
 From PS.Gen Require CFuns.
 From PS.Gen Require CApi.
@@ -56,12 +56,14 @@ PLAN = {
          ('api_decode','tie_decode','polyseed_decode as translated: str_tmp, words and poly are wiped on every exit'),
          ('api_crypt','tie_crypt','polyseed_crypt as translated: poly, mask and pass_norm are wiped'),
          ('idx','tie_phrase_decode_ev','polyseed_phrase_decode translated with its events: exactly one wipe of idx on every return, the MULT_LANG one included; otherwise it is the pure translation tied in C09'),
-         ('api_encode','tie_encode','polyseed_encode as translated: poly and str_tmp are wiped')],
+         ('api_encode','tie_encode','polyseed_encode as translated: poly and str_tmp are wiped'),
+         ('locals','tie_locals','the automatic arrays and structs of every translated API function, as found in the current source, are the objects the wipe accounting knows plus the two public salts: a new temporary breaks this'),
+         ('locals_accounted','locals_accounted','each of them maps to an object of the mirror (CTieApi.cobj) or is a salt')],
  'C18': [('api_create','tie_create','polyseed_create as translated: one allocation, one clock read, one request for 19 random bytes - all through the table - and the secret is those bytes'),
          ('api_keygen','tie_keygen','polyseed_keygen as translated: the key is what the injected KDF wrote')],
 }
 for prop, items in PLAN.items():
-    p = '/verif/coq/Properties_%s.v' % prop
+    p = '/verif/coq/Properties_%s_tie.v' % prop
     s = open(p).read()
     if 'src/polyseed.c as TRANSLATED' in s:
         s = s[:s.index('\n(* ---- the tie to the code: src/polyseed.c as TRANSLATED')]
